@@ -560,7 +560,9 @@ class Exec:
         elif isinstance(t, ast.Subscript):
             base = self.eval(t.value)
             newbase = self.store_index(base, self.eval_index(t.slice), v)
-            self.assign(t.value, newbase)
+            # `x[i] = v` mutates the container x refers to: rebind x where it lives (it may be a
+            # variable of an enclosing function)
+            self.assign(t.value, newbase, mutate=True)
         else:
             raise Unsupported(f"assignment target {type(t).__name__}")
 
